@@ -6,6 +6,8 @@ import (
 	"sort"
 	"sync/atomic"
 
+	"github.com/hashicorp/serf/serf"
+
 	"github.com/DrmagicE/gmqtt"
 	"github.com/DrmagicE/gmqtt/persistence/subscription"
 )
@@ -64,3 +66,19 @@ func (f *Federation) VerifPeers() []string {
 
 // VerifNodeName returns the node name.
 func (f *Federation) VerifNodeName() string { return f.nodeName }
+
+// VerifBouncePeer makes this node handle a serf "member failed" event immediately followed by a
+// "member join" event for the given peer, as it happens when only this side of the cluster loses
+// sight of the peer for a while. It reports whether the peer was known.
+func (f *Federation) VerifBouncePeer(node string) bool {
+	f.memberMu.Lock()
+	p, ok := f.peers[node]
+	f.memberMu.Unlock()
+	if !ok {
+		return false
+	}
+	ev := serf.MemberEvent{Members: []serf.Member{p.member}}
+	f.nodeFail(ev)
+	f.nodeJoin(ev)
+	return true
+}
